@@ -1,6 +1,6 @@
 (* C04 - Only sufficiently confirmed source events are relayed.
    This file contains only the property theorems (each closed by [exact]) and Print Assumptions. *)
-From Coq Require Import List ZArith NArith Bool.
+From Coq Require Import List ZArith NArith Bool Permutation.
 Import ListNotations.
 From SygmaV Require Import Model.C04 Proofs.C04.
 Local Open Scope Z_scope.
@@ -83,6 +83,72 @@ Theorem C04_hist_ok_safe : forall cur conf k heads obs k' b,
 Proof. exact hist_ok_safe. Qed.
 Print Assumptions C04_hist_ok_safe.
 
+(* ---- several retry requests in one range / batch, and concurrent evaluations on one handler ----
+   The judge of a batch, a sequence or a concurrent schedule of guard evaluations is the
+   single-evaluation judge applied pointwise: to each evaluation with the head THAT evaluation was
+   served and the blocks THAT evaluation processed. *)
+Theorem C04_multi_pointwise : forall conf evs obs,
+  multi_ok conf evs obs = true <-> Forall2 (fun e o => eval_judge conf e o = true) evs obs.
+Proof. exact multi_pointwise. Qed.
+Print Assumptions C04_multi_pointwise.
+
+(* ... so its verdict is the same for every order (schedule) in which the evaluations are listed. *)
+Theorem C04_multi_schedule_independent : forall conf evs obs evs' obs',
+  length evs = length obs -> length evs' = length obs' ->
+  Permutation (combine evs obs) (combine evs' obs') ->
+  multi_ok conf evs obs = multi_ok conf evs' obs'.
+Proof. exact multi_schedule_independent. Qed.
+Print Assumptions C04_multi_schedule_independent.
+
+(* The pure per-evaluation guard satisfies it on every list of evaluations (unknown heads / event
+   blocks included) ... *)
+Theorem C04_multi_ok_model : forall conf evs, multi_ok conf evs (multi_model conf evs) = true.
+Proof. exact multi_ok_model. Qed.
+Print Assumptions C04_multi_ok_model.
+
+(* ... and whatever it accepts: an evaluation processed something only if its head and its event
+   block were known, and every block it processed is buried deep enough under ITS head. *)
+Theorem C04_multi_ok_safe : forall conf evs obs p oh ob o b,
+  multi_ok conf evs obs = true -> In ((p, oh, ob), o) (combine evs obs) -> In b o ->
+  exists head blk, oh = Some head /\ ob = Some blk /\
+    (uses_conf p = true -> conf <= confirmations head b) /\ (uses_conf p = false -> b <= head).
+Proof. exact multi_ok_safe. Qed.
+Print Assumptions C04_multi_ok_safe.
+
+(* One call served one head with several retry requests in its range (flat observation). *)
+Theorem C04_batch_ok_model : forall p head conf blks,
+  batch_ok p head conf (batch_model p head conf blks) = true.
+Proof. exact batch_ok_model. Qed.
+Print Assumptions C04_batch_ok_model.
+
+Theorem C04_batch_ok_safe : forall p head conf blocks b,
+  batch_ok p head conf blocks = true -> In b blocks ->
+  (uses_conf p = true -> conf <= confirmations head b) /\ (uses_conf p = false -> b <= head).
+Proof. exact batch_ok_safe. Qed.
+Print Assumptions C04_batch_ok_safe.
+
+Theorem C04_batch_pointwise : forall p head conf (obs : list (list Z)),
+  batch_ok p head conf (concat obs) = forallb (batch_ok p head conf) obs.
+Proof. exact batch_pointwise. Qed.
+Print Assumptions C04_batch_pointwise.
+
+(* EVM retry by transaction hash over receipts with logs, "null" block numbers included. *)
+Theorem C04_txs_ok_model : forall conf evs, txs_ok conf evs (txs_model conf evs) = true.
+Proof. exact txs_ok_model. Qed.
+Print Assumptions C04_txs_ok_model.
+
+Theorem C04_txs_pointwise : forall conf evs obs,
+  txs_ok conf evs obs = true <-> Forall2 (fun e o => tx_ok conf e o = true) evs obs.
+Proof. exact txs_pointwise. Qed.
+Print Assumptions C04_txs_pointwise.
+
+Theorem C04_tx_ok_safe : forall conf served oh orb logs obs i,
+  tx_ok conf (served, oh, orb, logs) obs = true -> In i obs ->
+  exists h m lb b, oh = Some h /\ nth_error logs (N.to_nat i) = Some (m, lb) /\
+    (orb = Some b \/ lb = Some b) /\ conf <= confirmations h b.
+Proof. exact tx_ok_safe. Qed.
+Print Assumptions C04_tx_ok_safe.
+
 (* Non-vacuity: concrete accepted / rejected triples at the boundary. *)
 Example C04_nonvacuous :
   accept BtcScan 105 100 5 = true /\ accept BtcScan 104 100 5 = false /\
@@ -91,5 +157,18 @@ Example C04_nonvacuous :
   (* beyond the 32-bit boundary: a height whose low 32 bits are below the finalized head *)
   in_domain SubRetryEvt 100 (2 ^ 32 + 95) = true /\ accept SubRetryEvt 100 (2 ^ 32 + 95) 0 = false /\
   single_ok SubRetryEvt 100 (2 ^ 32 + 95) 0 [2 ^ 32 + 95] = false /\
-  processed EvmRetryMsg (2 ^ 64 + 7) (2 ^ 64 + 1) 5 = [2 ^ 64 + 1; 2 ^ 64 + 1].
+  processed EvmRetryMsg (2 ^ 64 + 7) (2 ^ 64 + 1) 5 = [2 ^ 64 + 1; 2 ^ 64 + 1] /\
+  (* two retries inside one handler at head 200, 5 confirmations: 198 refused, 100 served; a run in
+     which the refused one was processed all the same is rejected, whichever way it is listed *)
+  multi_model 5 [(EvmRetryMsg, Some 200, Some 198); (EvmRetryMsg, Some 200, Some 100)] = [[]; [100; 100]] /\
+  multi_ok 5 [(EvmRetryMsg, Some 200, Some 198); (EvmRetryMsg, Some 200, Some 100)] [[198; 198]; [100; 100]] = false /\
+  multi_ok 5 [(EvmRetryMsg, Some 200, Some 100); (EvmRetryMsg, Some 200, Some 198)] [[100; 100]; [198; 198]] = false /\
+  (* a transaction that is in no block: nothing may be processed at any head *)
+  eval_ok EvmRetryTx (Some 1000000) None 5 [0] = false /\ eval_ok EvmRetryTx (Some 1000000) None 5 [] = true /\
+  (* one range, finalized head 100, three Retry events *)
+  batch_model SubRetryEvt 100 0 [101; 100; 101] = [100] /\ batch_ok SubRetryEvt 100 0 [100; 101] = false /\
+  (* receipts: mined in 94 at head 100 (5 confirmations) with a foreign log; in no block at all *)
+  txs_model 5 [(true, Some 100, Some 94, [(true, Some 94); (false, Some 94); (true, Some 94)]);
+               (true, Some 100, None, [(true, None)])] = [[0%N; 2%N]; []] /\
+  tx_ok 5 (true, Some 100, None, [(true, None)]) [0%N] = false.
 Proof. vm_compute. repeat split. Qed.
